@@ -194,8 +194,6 @@ def oracle(sc, got, thr):
     classes_of = (lambda c: c[1:]) if first else (lambda c: c)
     arity = len(sc['lists'])
 
-    if not got['done']:
-        fails.append('program did not run to the end')
     if got['junk']:
         fails.append('unidentified output: %r' % got['junk'][:3])
     # 1. product, in order
@@ -249,6 +247,8 @@ def oracle(sc, got, thr):
     if got['done'] and got['call'] != exp_calls:
         bad = [(g, e) for g, e in zip(got['call'], exp_calls) if g != e][:3]
         fails.append('dispatch does not run the defined combinations: %d calls for %d; first differences (got, expected) %s' % (len(got['call']), len(exp_calls), bad))
+    if not got['done']:
+        fails.append('program did not run to the end')
     # 6. shape
     if got['shape'] is None:
         fails.append('no shape line')
